@@ -62,3 +62,15 @@ package ring
 //@ # the look-back cache is written only by the setter above and replaced wholesale (emptied) when the topology changes;
 //@ # New builds it empty (composite literal). CleanupShuffleShardCache only deletes.
 //@ fieldwriters Ring.shuffledSubringWithLookbackCache only Ring.setCachedShuffledSubringWithLookback Ring.setRingStateFromDesc property C13
+//@
+//@ # A cache hit refreshes, for EVERY entry of the cached shard, the fields RingCompare ignores from the parent ring's
+//@ # current descriptor (unconditionally: an equal heartbeat time does not mean an equal state), and nothing else.
+//@ pred refreshedFrom(c InstanceDesc, p InstanceDesc) = c.State == p.State && c.Timestamp == p.Timestamp && same(c.Versions, p.Versions)
+//@ func Ring.getCachedShuffledSubring
+//@   property C13
+//@   requires r.ringDesc != nil
+//@   requires forall k subringCacheKey :: in(k, r.shuffledSubringCache) && r.shuffledSubringCache[k] != nil ==> r.shuffledSubringCache[k].ringDesc != nil && !isnil(r.shuffledSubringCache[k].ringDesc.Ingesters)
+//@   ensures  refreshed: result != nil && !sameptr(result, r) && result.ringDesc != nil ==> (forall n string :: in(n, result.ringDesc.Ingesters) ==> refreshedFrom(result.ringDesc.Ingesters[n], get(r.ringDesc.Ingesters, n)))
+//@   loop 0 invariant cached != nil && cached.ringDesc != nil && same(r.ringDesc, old(r).ringDesc) && !isnil(cached.ringDesc.Ingesters) && r != nil
+//@   loop 0 invariant forall n string :: in(n, cached.ringDesc.Ingesters) <==> in(n, $coll)
+//@   loop 0 invariant forall n string :: $visited[n] ==> refreshedFrom(cached.ringDesc.Ingesters[n], get(r.ringDesc.Ingesters, n))
